@@ -10,6 +10,8 @@ import (
 	"sort"
 	"strings"
 	"time"
+
+	"github.com/semihalev/twig"
 )
 
 // C03 — output is a deterministic function of templates and context (independent of Go's map
@@ -394,6 +396,31 @@ func c03Check(e *Env, c *c03Case, reps, procs int) (c03Out, bool, error) {
 	if errTextVaries {
 		r.Hit("error-text-varies-between-renders")
 	}
+	// one engine, one context object, rendered three times: the second and third render see whatever the first did to
+	// the caller's lists and maps (a filter that sorts in place, or appends into the spare capacity of a sub-slice)
+	if ref.Class == "" {
+		var eng *twig.Engine
+		ctx := c03Ctx(c, 0)
+		for k := 0; k < 3; k++ {
+			res := guarded(func() (string, error) {
+				if eng == nil {
+					var err error
+					if eng, err = newEngine(c.Tpls); err != nil {
+						return "", err
+					}
+				}
+				return eng.Render("main", ctx)
+			})
+			if res.Out != ref.Out || res.Class != ref.Class {
+				r.Violate(Violation{Key: "same-context-rendered-again-differs",
+					What:   fmt.Sprintf("%s: render %d with one and the same context value gives %q (%s), the first gave %q", c.Name, k+1, truncate(res.Out, 100), res.Class, truncate(ref.Out, 100)),
+					Broken: "C03: for a fixed context value the rendered bytes are fixed (implementation-only oracle: the same context object rendered again on the same engine)",
+					Replay: map[string]any{"kind": "repeat-same-context", "case": c, "render": k + 1, "out_first": ref.Out, "out_now": res.Out, "class_now": res.Class}})
+				return ref, false, nil
+			}
+		}
+		r.Hit("same-context-object-rendered-again")
+	}
 	for p := 0; p < procs; p++ {
 		got, err := c03RunChild(e, c, int64(p), 50*p*p)
 		if err != nil {
@@ -636,7 +663,19 @@ func c03FixedCorpus() []c03Case {
 	m3 := c03Val{T: "map", K: []c03Val{c03S("c"), c03S("a"), c03S("b")}, L: []c03Val{c03I(3), c03I(1), c03I(2)}}
 	msi := c03Val{T: "msi", K: []c03Val{c03S("c"), c03S("a"), c03S("b"), c03S("d")}, L: []c03Val{c03I(3), c03I(1), c03I(2), c03I(4)}}
 	mis := c03Val{T: "mis", K: []c03Val{c03I(10), c03I(9), c03I(-1), c03I(2)}, L: []c03Val{c03S("j"), c03S("i"), c03S("n"), c03S("b")}}
-	return []c03Case{
+	lst := c03Val{T: "list", L: []c03Val{c03S("d"), c03S("a"), c03S("c"), c03S("b"), c03S("e")}}
+	strs := c03Val{T: "strs", L: []c03Val{c03S("d"), c03S("a"), c03S("c"), c03S("b")}}
+	listOps := []c03Case{}
+	for _, op := range []string{"slice(0, 2)|merge(['x'])", "slice(1, 2)|merge(['x', 'y'])|join(',')", "slice(0, 3)|sort", "slice(1)|reverse", "sort", "reverse", "slice(0, 2)|merge(xs)", "merge(['z'])|slice(0, 2)|merge(['w'])"} {
+		j := ""
+		if !strings.Contains(op, "join") {
+			j = "|join(',')"
+		}
+		listOps = append(listOps, c03Case{Name: "list filter on (a part of) a context list: " + op, Tag: "list-filter",
+			Tpls: map[string]string{"main": "{{ xs|join(',') }}|{{ xs|" + op + j + " }}|{% set l = ys|" + op + " %}{{ ys|join(',') }}|{% for q in xs|" + strings.TrimSuffix(op, "|join(',')") + " %}{{ q }}{% endfor %}|{{ xs|join(',') }}"},
+			Ctx:  map[string]c03Val{"xs": lst, "ys": strs}})
+	}
+	return append(listOps, []c03Case{
 		// the pinned tree's defects (DESIGN §1.2 C03); all four fail there with high probability
 		{Name: "pinned: for over a hash literal", Tag: "pinned-defect", Tpls: map[string]string{"main": "{% for k, v in {'a':1,'b':2,'c':3} %}{{ k }}={{ v }};{% endfor %}"}, Expect: "a=1;b=2;c=3;"},
 		{Name: "pinned: for over a context map", Tag: "pinned-defect", Tpls: map[string]string{"main": "{% for k, v in m %}{{ k }}={{ v }};{% endfor %}"}, Ctx: map[string]c03Val{"m": m3}, Expect: "a=1;b=2;c=3;"},
@@ -646,7 +685,7 @@ func c03FixedCorpus() []c03Case {
 		{Name: "pinned: keys of an int-keyed map are in numeric order", Tag: "pinned-defect", Tpls: map[string]string{"main": "{{ m|keys|join(',') }}"}, Ctx: map[string]c03Val{"m": mis}, Expect: "-1,2,9,10"},
 		{Name: "pinned: date format D, d M Y", Tag: "pinned-defect", Tpls: map[string]string{"main": "{{ d|date('D, d M Y') }}"}, Ctx: map[string]c03Val{"d": {T: "time"}}, Expect: "Tue, 05 Mar 2024"},
 		{Name: "pinned: date format l j F", Tag: "pinned-defect", Tpls: map[string]string{"main": "{{ d|date(f) }}"}, Ctx: map[string]c03Val{"d": {T: "time"}, "f": c03S("l j F y, H:i:s A")}, Expect: "Tuesday 5 March 24, 14:07:09 PM"},
-	}
+	}...)
 }
 
 func c03KV(t string, keys []c03Val, vals ...string) c03Val {
@@ -1223,6 +1262,7 @@ func runC03(e *Env) error {
 	if r.Full() {
 		return nil
 	}
+	c03DateStrings(e)
 	// (c) date formats
 	return c03DateFormats(e)
 }
